@@ -480,7 +480,7 @@ class MultiportILVTMemory(BaseMultiportMemory):
         m.submodules.ilvt = ilvt = self.memory_type(
             shape=shape,
             depth=self.depth,
-            init=self.init,
+            init=[],  # initial content lives in bank 0, which is what an all-zero ILVT points at
             src_loc_at=self.src_loc + 1,
         )
 
